@@ -1,2 +1,12 @@
 //! Kani harnesses for unit catalog (see /verif/notes/AGENT-BRIEF.md for naming: full_*, bnd_*, cex_*).
+//!
+//! None.  C22 is covered by the Verus unit `catalog`.  A concrete harness for the
+//! pruning defect (insert `e.`, insert `a.e.`, remove `a.e.`, get `e.`) and a
+//! bounded check of `HashMapTreeCatalog::iter` were tried and dropped: every
+//! path goes through `std::collections::HashMap::new()`, whose `RandomState`
+//! seeds from the OS (getrandom) - CBMC cannot execute that, and
+//! `#[kani::stub(std::sys::random::hashmap_random_keys, ..)]` does not resolve
+//! with Kani 0.68 ("unable to find `sys`": the std function is private).
+//! The defect is demonstrated natively instead (see
+//! /verif/notes/agent_reports/catalog.md, `examples/c22_remove_prune.rs`).
 #![allow(unused_imports, dead_code)]
